@@ -494,6 +494,19 @@ pub fn check_filter(db: &mut Db, t: &RefTable, pred: &E) -> (String, Option<(Str
     }
 }
 
+/// The same predicate with the nullable columns in the select list: the rows kept must carry their own values.
+pub fn check_projection(db: &mut Db, t: &RefTable, pred: &E) -> (String, Option<(String, String)>) {
+    let q = Q::select("t", vec![col("id"), col("ni"), col("nf"), col("ns")]).filter(pred.clone());
+    let c = crate::qeng::QCase { table: 0, layout: 0, q, mode: crate::qeng::Mode::Exact, nkeys: 0 };
+    let (class, bad) = crate::qeng::check_query(db, t, &c, "C03");
+    (class, bad.map(|(k, w)| (format!("projection:{}", k.split(':').next().unwrap_or("")), w)))
+}
+
+/// Atoms used for the projection check: positive atoms (NOT over a nullable comparison is judged by the id check).
+fn projection_preds(preds: &[E]) -> Vec<E> {
+    preds.iter().filter(|p| !is_tree(p) && !matches!(p, E::Not(_) | E::NotLike(..))).cloned().collect()
+}
+
 impl Engine for C03 {
     fn property(&self) -> &'static str {
         "C03"
@@ -502,7 +515,7 @@ impl Engine for C03 {
     fn describe(&self, tier: Tier) -> Describe {
         Describe {
             level: "model_checking",
-            rule: "every predicate of the enumerated set {column op constant, constant op column, column op column, IS [NOT] NULL, [NOT] LIKE over all patterns up to length 3 of {%,_,a,b,c}, regex} over 9 column classes (u8+offset int, wide int, nullable int, float, nullable float, dictionary string, packed string, nullable string, absent column) x 6 comparison operators x constants below / at / inside / at / above the column range and of the other numeric type, every NOT atom, and AND / OR / NOT(AND) / (NOT a OR b) trees over a covering subset of atoms, evaluated as SELECT id FROM t WHERE p on 3 physical layouts; the returned ids must equal the ids the reference evaluator keeps. Non-trivial: the predicate keeps some but not all rows; distinct by predicate text.".into(),
+            rule: "every predicate of the enumerated set {column op constant, constant op column, column op column, IS [NOT] NULL, [NOT] LIKE over all patterns up to length 3 of {%,_,a,b,c}, regex} over 9 column classes (u8+offset int, wide int, nullable int, float, nullable float, dictionary string, packed string, nullable string, absent column) x 6 comparison operators x constants below / at / inside / at / above the column range and of the other numeric type, every NOT atom, and AND / OR / NOT(AND) / (NOT a OR b) trees over a covering subset of atoms, evaluated as SELECT id FROM t WHERE p on 3 physical layouts; the returned ids must equal the ids the reference evaluator keeps; every positive atom is evaluated a second time as SELECT id, ni, nf, ns FROM t WHERE p (nullable columns read through the filter): the rows must be the reference rows with their own values. Non-trivial: the predicate keeps some but not all rows; distinct by predicate text.".into(),
             assumptions: vec![
                 "NOT over a comparison with NULL: the three-valued and the two-valued reading are both accepted".into(),
                 "a predicate whose operands have incompatible types (reference says type error) is not judged".into(),
@@ -589,6 +602,34 @@ impl Engine for C03 {
                     }
                 }
             }
+            // projection of nullable columns through the filter
+            if !db.dead {
+                for (pi, p) in projection_preds(&preds).iter().enumerate() {
+                    if pi % nshards != shard {
+                        continue;
+                    }
+                    out.evaluations += 1;
+                    out.transitions += 1;
+                    let (class, bad) = check_projection(&mut db, &rt, p);
+                    out.states.insert(hash64(format!("proj|{}|{}", li, p.sql()).as_bytes()));
+                    out.outcome(&format!("projection:{}", class));
+                    if let Some((kind, what)) = bad {
+                        // the id check of the same predicate decides first: only report what it does not already report
+                        let (_, id_bad) = check_filter(&mut db, &rt, p);
+                        if id_bad.is_none() {
+                            out.violation(Violation {
+                                sig: filter_sig(&kind, p),
+                                what: format!("layout {}: {}", l.name, what),
+                                weight: p.sql().len() as u64,
+                                case: serde_json::to_value(FilterCase { layout: li, pred: p.clone() }).unwrap(),
+                            });
+                        }
+                        if db.dead {
+                            break;
+                        }
+                    }
+                }
+            }
             db.destroy();
         }
     }
@@ -608,7 +649,10 @@ impl Engine for C03 {
                 })
             }
         };
-        let (_, bad) = check_filter(&mut db, &t.ref_table(), &c.pred);
+        let (_, mut bad) = check_filter(&mut db, &t.ref_table(), &c.pred);
+        if bad.is_none() && !db.dead {
+            bad = check_projection(&mut db, &t.ref_table(), &c.pred).1;
+        }
         db.destroy();
         bad.map(|(kind, what)| Violation {
             sig: filter_sig(&kind, &c.pred),
